@@ -17,9 +17,19 @@ def run(prop, tier, seed, out):
         dev = run_tlc(scr, "cloudevents", "CloudEvents", cfg % '"sign_error_ignored"', "dev", workers=1, timeout=300, heap="2g")
         if not dev.violated:
             raise Broken("deviation sign_error_ignored does not violate NeverForwardedUnsignedWhenSigningFailed (vacuous)")
+        # the configuration that changes while the node is in use: signer rotation (also refused) and the list of types
+        scfg = "CONSTANTS\n  MaxDepth = %d\n  Dev = {%s}\nSPECIFICATION Spec\nINVARIANTS RefusedCallChangesNothing Export\nPROPERTY SignerStays\nCHECK_DEADLOCK FALSE\n"
+        seq = run_tlc(scr, "cloudevents", "CeSeq", scfg % (4 if quick else 5, ""), "seq", workers=1, timeout=600, heap="3g")
+        if seq.violated:
+            raise Broken("CeSeq.tla violates " + seq.violated)
+        must_pass(seq, "CeSeq")
+        out.add_tlc(seq)
+        sdev = run_tlc(scr, "cloudevents", "CeSeq", scfg % (3, '"rotate_nil_clears"'), "seq-dev", workers=1, timeout=300, heap="2g")
+        if not sdev.violated:
+            raise Broken("deviation rotate_nil_clears does not violate RefusedCallChangesNothing (vacuous)")
         outp = scr.path("ce.json")
         t0 = time.time()
-        p = run_vh(vh, ["ce-replay", "-vectors", vec.out_path, "-seed", str(seed), "-n", "2" if quick else "100", "-out", outp], timeout=3000)
+        p = run_vh(vh, ["ce-replay", "-vectors", vec.out_path, "-seed", str(seed), "-n", "2" if quick else "100", "-seq", seq.out_path, "-out", outp], timeout=3000)
         if p.returncode != 0:
             raise Broken("ce-replay failed: " + p.stderr[-1500:])
         r = json.load(open(outp))
